@@ -22,7 +22,7 @@ def tlc_generate(ctx, inputs, name, invariants=("L1EqualsL0", "LcaFacts"), timeo
         mc = gen.write_mc(wdir, "THL", inputs)
         cfg = os.path.join(wdir, "gen.cfg")
         tlc.write_cfg(cfg, spec="SpecGen", constants=THL_CONSTS, invariants=invariants)
-        res = tlc.run(mc, cfg, dump=True, workdir=wdir, timeout=timeout)
+        res = tlc.run(mc, cfg, dump=True, workdir=wdir, timeout=timeout, heap=12288 if len(inputs) > 8000 else None)
         ctx.add_tlc(name, res)
         if not res.ok:
             ctx.violation(f"specification ({name}): {','.join(res.violated)} violated",
